@@ -117,6 +117,7 @@ static void build_ops(void) {
             uint16_t v = 0;
             for (b = 0; b < nbits[r]; b++) if (m & (1 << b)) v |= repbit[r][b];
             add_op(OP_REGSET, r, v, 0, NULL);
+            if (m & (m - 1)) { add_op(OP_SETBITS, r, v, 0, NULL); add_op(OP_CLRBITS, r, v, 0, NULL); }      /* masks of two or more bits */
         }
         for (b = 0; b < nbits[r]; b++) {
             add_op(OP_SETBITS, r, repbit[r][b], 0, NULL);
@@ -351,8 +352,82 @@ static unsigned long long sweep_values(void) {
             n += 2;
         }
     }
+    {   /* SCPI_RegSetBits / SCPI_RegClearBits with every mask over four spread bits, on every prior value over the same bits */
+        static const uint16_t sb[4] = {0x0001, 0x0020, 0x0100, 0x8000};
+        unsigned v0, m;
+        int k;
+        for (base = 0; base < 4; base++) for (i = 0; i < 9; i++) for (v0 = 0; v0 < 16; v0++) for (m = 0; m < 16; m++) for (k = 0; k < 2; k++) {
+            int r = wr[i], ev = r == SCPI_REG_OPERC ? SCPI_REG_OPER : r == SCPI_REG_QUESC ? SCPI_REG_QUES : -1;
+            uint16_t val0 = 0, mask = 0, want, got, e0, e1;
+            int b2;
+            if (!MC_CASE()) continue;
+            for (b2 = 0; b2 < 4; b2++) { if (v0 & (1u << b2)) val0 |= sb[b2]; if (m & (1u << b2)) mask |= sb[b2]; }
+            mc_case_tag = "mask-sweep"; mc_case_i[0] = base; mc_case_i[1] = r; mc_case_i[2] = val0; mc_case_i[3] = mask; mc_case_i[4] = k;
+            make_base(base);
+            SCPI_RegSet(&ctx, (scpi_reg_name_t) r, val0);
+            e0 = ev >= 0 ? SCPI_RegGet(&ctx, (scpi_reg_name_t) ev) : 0;
+            if (k == 0) { SCPI_RegSetBits(&ctx, (scpi_reg_name_t) r, mask); want = (uint16_t) (val0 | mask); }
+            else { SCPI_RegClearBits(&ctx, (scpi_reg_name_t) r, mask); want = (uint16_t) (val0 & ~mask); }
+            got = SCPI_RegGet(&ctx, (scpi_reg_name_t) r);
+            n++;
+            if (got != want) viol_plain(do_c11 ? "c11/register-value/mask-sweep" : "c12/register-value/mask-sweep", "base state %d, %s = 0x%x, then %s(0x%x): register reads 0x%x, expected 0x%x", base, regname[r], val0, k ? "RegClearBits" : "RegSetBits", mask, got, want);
+            if (do_c11) plain_c11(k ? "RegClearBits" : "RegSetBits", r, mask, base);
+            if (do_c12 && ev >= 0) {
+                e1 = SCPI_RegGet(&ctx, (scpi_reg_name_t) ev);
+                if (e1 != (uint16_t) (e0 | (want & ~val0))) viol_plain("c12/condition-not-latched/mask-sweep", "base state %d, %s 0x%x -> 0x%x by %s(0x%x): %s = 0x%x, expected 0x%x", base, regname[r], val0, want, k ? "RegClearBits" : "RegSetBits", mask, regname[ev], e1, (uint16_t) (e0 | (want & ~val0)));
+            }
+        }
+    }
     return n;
 }
+
+#if USE_DEVICE_DEPENDENT_ERROR_INFORMATION && !USE_MEMORY_ALLOCATION_FREE
+/* ---- static-heap build: every history of <= 6 pushes with texts that fit / do not fit an 8-byte info heap, pops, clears and
+ *      error queries; after every step the error-available bit, MSS and the count follow the reference queue (capacity 2) ------- */
+static unsigned long long heap_histories(void) {
+    static scpi_t hc; static char hib[64], hheap[8]; static scpi_error_t hring[2];
+    static const char * nm[] = {"PushEx(-100,10 chars)", "PushEx(-200,\"ab\")", "PushEx(-300,\"\")", "ErrorPush(-400)", "ErrorPop", "ErrorClear", "SYST:ERR?", "PushEx(-100,7 chars)"};
+    unsigned long long n = 0;
+    int k, i, idx[8], K = mc_thorough ? 7 : 6;
+    for (k = 1; k <= K; k++) {
+        for (i = 0; i < k; i++) idx[i] = 0;
+        for (;;) {
+            if (MC_CASE()) {
+                int count = 0;
+                char hist[256]; size_t ho = 0;
+                mc_case_tag = "heap-history";
+                SCPI_Init(&hc, cmds, &itf, scpi_units_def, "a", "b", "c", "d", hib, sizeof hib, hring, 2);
+                SCPI_InitHeap(&hc, hheap, sizeof hheap);
+                SCPI_RegSet(&hc, SCPI_REG_SRE, STB_QMA);
+                for (i = 0; i < k; i++) {
+                    scpi_error_t e;
+                    uint16_t stb;
+                    ho += (size_t) snprintf(hist + ho, sizeof hist - ho, "%s; ", nm[idx[i]]);
+                    switch (idx[i]) {
+                        case 0: SCPI_ErrorPushEx(&hc, -100, (char *) "abcdefghij", 0); if (count < 2) count++; break;
+                        case 1: SCPI_ErrorPushEx(&hc, -200, (char *) "ab", 0); if (count < 2) count++; break;
+                        case 2: SCPI_ErrorPushEx(&hc, -300, (char *) "", 0); if (count < 2) count++; break;
+                        case 3: SCPI_ErrorPush(&hc, -400); if (count < 2) count++; break;
+                        case 4: SCPI_ErrorPop(&hc, &e); if (e.device_dependent_info) scpiheap_free(&hc.error_info_heap, e.device_dependent_info, FALSE); if (count) count--; break;
+                        case 5: SCPI_ErrorClear(&hc); count = 0; break;
+                        case 6: outn = 0; SCPI_Input(&hc, "SYST:ERR?\n", 10); if (count) count--; break;
+                        default: SCPI_ErrorPushEx(&hc, -100, (char *) "abcdefg", 0); if (count < 2) count++; break;
+                    }
+                    n++;
+                    stb = SCPI_RegGet(&hc, SCPI_REG_STB);
+                    if ((int) SCPI_ErrorCount(&hc) != count || ((stb & STB_QMA) != 0) != (count > 0) || ((stb & STB_SRQ) != 0) != (count > 0)) {
+                        viol_plain("c11/error-available/static-heap", "8-byte info heap, queue of 2, history [%s]: reference count %d, SCPI_ErrorCount %d, STB 0x%x", hist, count, (int) SCPI_ErrorCount(&hc), stb);
+                        break;
+                    }
+                }
+            }
+            for (i = k - 1; i >= 0; i--) { if (++idx[i] < 8) break; idx[i] = 0; }
+            if (i < 0) break;
+        }
+    }
+    return n;
+}
+#endif
 
 /* ---- a large error queue: the error-available bit follows the number of queued errors beyond 255 entries ------ */
 static unsigned long long big_queue(void) {
@@ -425,6 +500,9 @@ int main(int argc, char ** argv) {
         ADD_RUN(-1, 1, 1);
         if (mc_thorough) { ADD_RUN(1, 2, 1); ADD_RUN(2, 2, 1); ADD_RUN(0, 2, 1); }
 #endif
+#if USE_DEVICE_DEPENDENT_ERROR_INFORMATION && !USE_MEMORY_ALLOCATION_FREE
+        nr = 0;                                /* static-heap build: only the heap histories below */
+#endif
         for (k = 0; k < nr; k++) {
             if ((unsigned long long) k % mc_nshards != mc_shard) continue;
             focus = runs[k][0];
@@ -452,6 +530,10 @@ int main(int argc, char ** argv) {
             mcx_free(&m);
         }
     }
+#if USE_DEVICE_DEPENDENT_ERROR_INFORMATION && !USE_MEMORY_ALLOCATION_FREE
+    mc_phase(1);
+    { unsigned long long nh = heap_histories(); ncodes += nh; if (mc_shard == 0) mc_sample("static-heap build: every history of <= 6 operations over 8 (pushes with texts that fit / do not fit / are empty, pop, clear, SYST:ERR?) on an 8-byte info heap"); }
+#else
 #ifndef MC_FLAVOR_FAST
     mc_phase(1);          /* the BFS runs advanced the case counter of some shards only */
     {
@@ -463,6 +545,7 @@ int main(int argc, char ** argv) {
         ncodes += sweep_codes();
         if (mc_shard == 0) mc_sample("code sweep: ErrorPush(c) for every c in -32768..32767 on ESR in {0, ~class, 0xff}");
     }
+#endif
 #endif
     mc_stat("states", states);
     mc_stat("transitions", transitions + ncodes);
